@@ -56,6 +56,8 @@ def cases(rng, tier, X):
             out.append(('flood%d_%d' % (fi, c), ops))
     # small scope, exhaustively: every frame sequence up to length 2 (thorough: 3) over the 23-symbol alphabet of frames.alphabet()
     out += F.small_scope(2 if tier == 'quick' else 3)
+    # one kind of event repeated hundreds / thousands of times (counters wrapping, thresholds, budgets), then ordinary traffic
+    out += F.soak_cases(rng, tier)
     # universal traffic (every frame type / sender / path / service / boundary value, 1..3 interfaces): this check's predicate on it
     for k in range(150 if tier == 'quick' else 6000):
         out.append(('u%d' % k, F.universal(rng)))
